@@ -155,7 +155,7 @@ theorem C04_accepted_inner_obeys_rules (outer inner : Hello) (pt : Bytes)
               · rename_i htls
                 simp only [Except.ok.injEq] at h
                 subst h
-                obtain ⟨body, after, trail, hbuf, hl2, _, _, _, _, _, hz⟩ := parseClientHello_inv _ h0 hp
+                obtain ⟨body, after, trail, hbuf, hl2, _, _, _, _, _, hz, _⟩ := parseClientHello_inv _ h0 hp
                 have hty' : (h0.d.ech.map (·.typ)) = some 1 := by simpa using hty
                 obtain ⟨hza, _⟩ := hz hty'
                 have hbuf' : u8 1 ++ (u24 pt.length ++ pt) =
